@@ -30,8 +30,11 @@ CLAIMED = {
             "Glyph-cache model (open addressing, tombstones, counters, freeze, MRU) with invariants proved for every history; "
             "exhaustive small-scope histories at table sizes 4/8 via the PIXMAN_VERIF water-mark hook plus random histories up to the "
             "default size replayed through model and library, abstract-map oracle; glyph drawing compared with per-glyph composition.",
-            TB + "Partial: drawing equivalence is reference composition on the library (no theorem); histories with duplicate keys are "
-            "compared with the model only.", TECH, "DESIGN.md 6/C17"),
+            TB + "Failed insertions are an operation of the model, the theorems and both history streams. Duplicate-key histories: "
+            "multimap invariant and first-in-probe-order lookup proved for every history, oracle binding. Drawing: per-glyph "
+            "decomposition and ADD-accumulate-then-composite proved at the model level over C03's region model and any per-pixel "
+            "combiner (a8 saturation and order independence via C01). Partial: which composite function the glyph loops dispatch to, "
+            "and the component-alpha / a1 / a4 same-format ADD, remain reference composition on the library.", TECH, "DESIGN.md 6/C17"),
 }
 
 CLAIMED.update({
@@ -98,8 +101,11 @@ CLAIMED.update({
             "additivity of sample counts across horizontal and edge splits; zero_src_has_no_effect table proved sound and tight "
             "against the combiner model; ~3e5 raster/edge/composite requests replayed through library, model and a brute-force "
             "sample-count Spec, plus additivity/offset/composite-vs-mask oracles on the library's own output.",
-            TB + "Partial: a8 span-fill bookkeeping, the induction over all rows of a shape and triangle decomposition are tied by "
-            "correspondence/oracle only. Known findings (recorded, not repaired: they change rendered output pinned by the suite's "
+            TB + "Since the deepening pass: span-fill loop = naive accumulation (spanfill_eq_naive), induction over all sample rows "
+            "(rasterizeEdges_rows / _walked), rasterize_trapezoid / add_trapezoids / add_traps = Spec.addShape on the exact region "
+            "(no lost fraction at the first row; per row no lattice tie or left-leaning or integral slope), triangle = its two "
+            "trapezoids for every vertex order (triangle_tiles; non-degenerate, no int32 wrap). Partial: outside that exact region "
+            "the code itself deviates (known findings). Known findings (recorded, not repaired: they change rendered output pinned by the suite's "
             "CRCs): pixman_edge_step drops the error term when no carry occurs (walk-history dependence, <= 1/65536 px), int32 "
             "overflow for |dx| >= 32768 px, get_trap_extents box in trapezoid space / from line endpoints, INT_MIN/-1 trap.",
             TECH, "DESIGN.md 6/C12"),
@@ -123,8 +129,12 @@ CLAIMED.update({
             "integers, affine positions = round16 of the exact centre image with no drift, bilinear/convolution channel formulas and "
             "constant preservation proved; OP_SRC composites of transformed sources replayed through model and library under 6 "
             "PIXMAN_DISABLE configurations plus an independent exact per-pixel Spec oracle in the harness.",
-            TB + "Partial: projective sampling only within a stated bound (projective_position_bound_partial); specialised/SIMD "
-            "scaling loops tied by the 6-configuration correspondence only; narrow pipeline, no alpha maps/accessors. Known finding "
+            TB + "Specialised paths proved equal to the reference fetchers on their guards: the nearest/bilinear/separable affine "
+            "iterators of pixman-fast-path.c, FAST_NEAREST_MAINLOOP cover/none/pad/normal incl. the pad split and the NORMAL wrap "
+            "loop, the rotate 90/270 blits (Props/C08Fast), all replayed through `pixdrv samplefast` under 6 configurations. Partial: "
+            "projective sampling only within a stated bound; the bilinear cover iterator up to one packed-lane identity "
+            "(PackedLerpExact) and without its two-line cache; rotate tile split and SIMD bodies by correspondence only; narrow "
+            "pipeline, no alpha maps/accessors. Known finding "
             "S2: homogeneous coordinates beyond int32 in __bits_image_fetch_general.", TECH, "DESIGN.md 6/C08"),
     "C13": ("proof",
             "Model over exact rationals of the gradient walker (sentinels, stop search, NORMAL/REFLECT folding), linear projection, "
@@ -148,10 +158,11 @@ CLAIMED.update({
             "broken operands propagate, every block freed at most once and exactly once after fini (history theorem over all "
             "aliasing patterns); link-time fault enumeration (k-th / from-k) of every allocation of ~5000 scenarios over all public "
             "entry-point families on the rebuilt library, model-compared for regions/constructors, oracle for drawing paths.",
-            TB + "Partial: init_rects/translate TRUE-branch refinement and validate's heap discipline are enumerated, not proved; "
-            "drawing paths under failure are oracle-only (no crash, no leak, old-or-correct pixels, writes inside the region). Known "
-            "findings A1-A4 (alpha-map destination rows composited against the wrong alpha; fill_rectangles / glyph insert report "
-            "success for skipped work).",
+            TB + "validate (with the literal quick_sort_rects proved to sort), init_rects, translate, init_from_image and the 16/32 "
+            "conversions refine the failure-free model and are commands of the heap-discipline history theorem. Partial: the "
+            "capacity-event list of the band sweep is tied to the C code by correspondence; drawing paths under failure are "
+            "oracle-only (no crash, no leak, old-or-correct pixels, writes inside the region). Known findings A3/A4 (fill_rectangles / "
+            "glyph insert report success for work skipped by the void composite); A1/A2 were repaired.",
             "Lean 4 refinement + ownership/heap-log theorems for all schedules and histories; link-time (--wrap) fault enumeration on "
             "the rebuilt library as correspondence and oracle", "DESIGN.md 6/C15"),
     "C16": ("proof",
@@ -179,8 +190,9 @@ CLAIMED.update({
             "exactly once exactly at the last unref with the callback fired once, alpha map outlives its parent, no chains or self "
             "loops, no use after free, no leak — proved as invariants over every operation history; exhaustive small-scope plus "
             "29k generated histories against the library under ASan+LSan with a malloc-wrap block census after every call.",
-            TB + "Partial: exactness of owned-buffer frees is proved per image record (two _partial theorems), the cross-history "
-            "non-interference is covered by the block census.", TECH, "DESIGN.md 6/C20"),
+            TB + "Every owned block (bits, transform, filter params, clip, stops, glyph_t, cache) is proved freed at most once and "
+            "exactly once at the end, over all histories including injected allocation failures and borrowed alpha-map references "
+            "(no _partial left).", TECH, "DESIGN.md 6/C20"),
 })
 
 CLAIMED.update({
